@@ -132,7 +132,7 @@ def _const_default(g):
     """g is o.unwrap_or(<literal>) (or the saturating_sub it normalises to)."""
     if g[0] != "call":
         return False
-    if g[1] in ("usize::saturating_sub", "Ord::max", "Ord::min"):
+    if g[1] in ("usize::saturating_sub", "Ord::max", "Ord::min", "f64::max", "f64::min"):
         return True
     if g[1] == "Option::unwrap_or" and len(g[2]) == 2:
         o, d = g[2]
